@@ -9,4 +9,5 @@ EXPLANATION = ("Version acceptance, the per-operation version gate (decorator wr
 
 
 def units(ctx):
-    return contract_units("C16", MODULES, ctx)
+    from vf import facts
+    return contract_units("C16", MODULES, ctx) + facts.units(["versions"], ctx)
